@@ -60,6 +60,10 @@ def templates():
         ('macro-param-is-const', 'kk = 3\ndef m kk {\n;kk\n}\nm 1\n', True, 'kk'),
         ('macro-recursion', 'def recmac {\nrecmac\n}\nrecmac\n', True, 'recmac'),
         ('macro-mutual-recursion', 'def ma {\nmb\n}\ndef mb {\nma\n}\nma\n', True, None),
+        ('unknown-macro-inside-label-counted-rep', 'la:\n;\n;\nlb:\ndef body {\nnosuchinner 1\n}\nrep((lb-la)/(2*w), i) body\n', True, 'nosuchinner'),
+        ('wrong-arity-inside-label-counted-rep', 'la:\n;\nlb:\ndef two x, y {\n;x\n}\ndef body {\ntwo 1\n}\nrep((lb-la)/(2*w), i) body\n', True, 'two'),
+        ('duplicate-label-inside-label-counted-rep', 'la:\n;\n;\nlb:\ndef body {\nduplab:\n;\n}\nrep((lb-la)/(2*w), i) body\n', True, 'duplab'),
+        ('recursion-inside-label-counted-rep', 'la:\n;\nlb:\ndef recin {\nrecin\n}\ndef body {\nrecin\n}\nrep((lb-la)/(2*w), i) body\n', True, 'recin'),
         ('macro-recursion-through-rep', 'def recrep {\nrep(1, i) recrep\n}\nrecrep\n', True, 'recrep'),
         ('macro-recursion-through-rep-with-arg', 'def recarg x {\nrep(2, i) recarg x+i\n}\nrecarg 0\n', True, 'recarg'),
         ('macro-mutual-recursion-through-rep', 'def ma {\nmb\n}\ndef mb {\nrep(1, i) ma\n}\nma\n', True, None),
